@@ -99,7 +99,7 @@ PROPS = {
         'design_ref': 'DESIGN.md §6 C17',
     },
     'C15': {
-        'verus': ['cli_options'],
+        'verus': ['cli_options', 'analyzer_run'],
         'kani': [],
         'level': 'proof',
         'design_ref': 'DESIGN.md §5 U14, §6 C15',
@@ -135,7 +135,7 @@ UNDECIDED = {
     'C16': ["end_loop re-push (f64 arithmetic) - read, not proved", "ValueArray / DimArray internals enter the Arrays wrapper as assumed contracts, themselves checked by Kani (bounded)"],
     'C17': ["the relational claim (identical output/inputs/errors/final state in all four configurations) is concluded from three facts, not proved as a 2-safety property: the switches are read at exactly the censused sites, each site only appends Warning / Trace records, and no statement or expression writes a switch", "that the trace records name exactly the lines execution passes through, and that a warning is issued exactly for never-assigned variables / missing arrays, are not decided (the guard conditions are read, not specified)", "PRINT and user-defined function calls are assumed contracts (they promise not to write the switches)", "TRACE / NOTRACE commands live in maybe_process_command (outside Verus; census only)"],
     'C15': [
-        "first half of the property (a loaded file lists and runs exactly like the same lines typed in): SourceFileAnalyzer::run (enumerate / zip over the tokenizer) is outside both verifiers - undecided, a change there is not reported by this check; what the CLI relies on from the analyzer's pass (every diagnostic names a line of the file; the store it built is well formed) enters as ASSUMED contracts; into_interpreter and from_program are proved (the loaded interpreter holds exactly the analyzer's stored lines and none of its runtime state)",
+        "first half (a loaded file lists and runs like the same lines typed in): decided as `the program SourceFileAnalyzer::run / analyze_lines stores is the fold, in file order, of: a numbered line whose text tokenizes to at least one token is stored under its number (replacing an earlier definition); any other line stores nothing` - stated with the same two functions of a line's text (parse_line_number, tokenize from the end of the number) that the prompt path's contract uses (unit interp_api: evaluate_impl stores apply_edit(lines, n, tokens)), so for files whose lines are all numbered, non-empty and tokenizable both paths store the same map. ASSUMED: the analyzer's tokenizer entry point (remaining_tokens_and_ranges) yields the same tokens as the prompt's (remaining_tokens); that the two units' uninterpreted functions are the same functions rests on both calling the same real parse_line_number / Tokenizer. That a numbered line is never taken for a command word at the prompt is not proved. Listing / running the two equal stores identically is the business of C04 / C03",
         "second half: decided as a per-function invariant (the switches of the interpreter in use equal the command-line options after new, load_source_file, show_interpreter_output, break_interpreter, show_error), not as an equality of two process transcripts; StdioInterpreter::run / run_impl (rustyline, ctrlc, channels) are outside Verus - a syntactic census pins the only other place the interpreter is replaced (NEW: args.create_interpreter())",
         "--skip-check only suppresses the diagnostics loop (proved: the interpreter and options are the same on both paths); the text written to stdout/stderr (colored, format!) is not specified",
     ],
